@@ -93,6 +93,7 @@ fn verif_replay() {
         let (mut src_peer, src_ours) = tokio::io::duplex(65536);
         // dst_window: how many bytes the destination takes per write (a small window = back-pressure: write() is partial)
         let window = a["dst_window"].as_u64().unwrap_or(65536) as usize;
+        let closes_after = a["dst_closes_after"].as_u64().map(|x| x as usize);
         let (dst_ours, mut dst_peer) = tokio::io::duplex(window.max(1));
         let (sr, _sw) = tokio::io::split(src_ours);
         let (_dr, dw) = tokio::io::split(dst_ours);
@@ -109,7 +110,7 @@ fn verif_replay() {
                 let end = (off + p).min(data.len());
                 src_peer.write_all(&data[off..end]).await.unwrap();
                 tokio::task::yield_now().await;
-                tokio::time::sleep(std::time::Duration::from_millis(5)).await;
+                tokio::time::sleep(std::time::Duration::from_millis(if closes_after.is_some() { 60 } else { 5 })).await;
                 off = end;
             }
             if off < data.len() { src_peer.write_all(&data[off..]).await.unwrap(); }
@@ -118,8 +119,16 @@ fn verif_replay() {
         let relay = AssertUnwindSafe(copy_half(&params, src, dst, stat.clone(),
             #[cfg(feature = "metrics")] prometheus::IntCounter::new("verif_relay", "x").unwrap())).catch_unwind();
         // the destination peer drains concurrently (with a small window the relay cannot finish otherwise)
+        // dst_closes_after: the destination peer reads that many bytes and then goes away (later writes to it fail)
         let drain = async {
             let mut got = vec![];
+            if let Some(k) = closes_after {
+                let mut buf = vec![0u8; k];
+                let ok = if k == 0 { true } else { tokio::time::timeout(std::time::Duration::from_millis(1500), dst_peer.read_exact(&mut buf)).await.map(|r| r.is_ok()).unwrap_or(false) };
+                if ok { got.extend_from_slice(&buf); }
+                drop(dst_peer);
+                return (got, false);
+            }
             let eof = tokio::time::timeout(std::time::Duration::from_millis(1500), dst_peer.read_to_end(&mut got)).await.is_ok();
             (got, eof)
         };
